@@ -43,6 +43,16 @@ Theorem C06_txn_iter_all_versions : forall now s ws readTs o,
 Proof. exact txn_scan_fwd_all. Qed.
 Print Assumptions C06_txn_iter_all_versions.
 
+(** Seek + Next*: forward Seek to any non-empty target (with or without
+    AllVersions, any bounds, including the clamping to LowerBound and the
+    rejection at UpperBound) lists exactly the scan restricted to keys >= target. *)
+Theorem C06_txn_iter_seek : forall now s ws readTs o key,
+  iter_inv s -> content_ok s ws -> seq_functional ws -> (forall w, In w ws -> wf_key w = true) ->
+  o_rev o = false -> key <> [] ->
+  map item_sitem (txn_list current now s readTs [] o (ASeek key)) = spec_scan now ws [] readTs (sopts_of o (Some key)).
+Proof. exact txn_scan_fwd_seek. Qed.
+Print Assumptions C06_txn_iter_seek.
+
 (** ... and every listed value is what a point read of the snapshot returns. *)
 Theorem C06_matches_get : forall now s ws readTs o i,
   iter_inv s -> content_ok s ws -> seq_functional ws -> (forall w, In w ws -> wf_key w = true) ->
@@ -51,6 +61,26 @@ Theorem C06_matches_get : forall now s ws readTs o i,
   spec_get now ws [] readTs (i_key i) = Some (i_val i).
 Proof. exact txn_scan_fwd_get. Qed.
 Print Assumptions C06_matches_get.
+
+(** The model of Txn.Get (pending write, then LSM.Get at readTs with its
+    [Value == nil && Meta == 0] test) returns that same point read, except in
+    the class of finding C06-G1: the newest visible write has an EMPTY value
+    and no meta bits (then a table hit comes back as nil and is reported
+    not-found, refuted below). *)
+Theorem C06_txn_get_partial : forall now s ws readTs u,
+  iter_inv s -> content_ok s ws -> seq_functional ws ->
+  (forall x, latest_at ws (sbase u) readTs = Some x -> nonempty (r_val x) = true \/ r_meta x <> 0) ->
+  txn_get now s readTs [] (sbase u) = spec_get now ws [] readTs u.
+Proof. exact txn_get_spec. Qed.
+Print Assumptions C06_txn_get_partial.
+
+Theorem C06_txn_get_refuted :
+  tier_inv_b s_g1 = true /\ txn_get 100 s_g1 1 [] (sbase [Byte.x61]) = None /\
+  spec_get 100 w_g1 [] 1 [Byte.x61] = Some [] /\
+  map item_sitem (txn_list current 100 s_g1 1 [] (plain_opts false false) ARewind)
+  = [ {| s_key := [Byte.x61]; s_ver := 1; s_val := [] |} ].
+Proof. exact g1_refuted. Qed.
+Print Assumptions C06_txn_get_refuted.
 
 (** The hypotheses are satisfiable on a state with a memtable, a sealed
     memtable and an L0 table, a tombstone shadowing an older version, and
@@ -97,6 +127,22 @@ Theorem C06_db_iter_partial : forall now s ws od,
 Proof. exact db_scan_fwd_partial. Qed.
 Print Assumptions C06_db_iter_partial.
 
+Theorem C06_db_iter_reverse_partial : forall now s ws od,
+  iter_inv s -> content_ok s ws -> seq_functional ws ->
+  (forall w, In w ws -> wf_key w = true /\ r_ver w <= max_u64) ->
+  simple_stream (fstream s) = true -> d_asc od = false ->
+  map item_sitem (db_list current now s od ARewind) = spec_scan now ws [] max_u64 (sopts_of_d od None).
+Proof. exact db_scan_rev_partial. Qed.
+Print Assumptions C06_db_iter_reverse_partial.
+
+Theorem C06_db_iter_seek_partial : forall now s ws od key,
+  iter_inv s -> content_ok s ws -> seq_functional ws ->
+  (forall w, In w ws -> wf_key w = true /\ r_ver w <= max_u64) ->
+  simple_stream (fstream s) = true -> d_asc od = true -> key <> [] ->
+  map item_sitem (db_list current now s od (ASeek key)) = spec_scan now ws [] max_u64 (sopts_of_d od (Some key)).
+Proof. exact db_scan_fwd_seek_partial. Qed.
+Print Assumptions C06_db_iter_seek_partial.
+
 Theorem C06_db_iter_partial_nonvacuous :
   iter_inv s_db /\ content_ok s_db w_db /\ seq_functional w_db /\
   (forall w, In w w_db -> wf_key w = true /\ r_ver w <= max_u64) /\ simple_stream (fstream s_db) = true.
@@ -108,6 +154,15 @@ Theorem C06_oracle_decides : forall now ws pw readTs o l,
   scan_ok_b now ws pw readTs o l = true <-> is_scan now ws pw readTs o l.
 Proof. exact scan_ok_b_spec. Qed.
 Print Assumptions C06_oracle_decides.
+
+(** [spec_scan] is not an arbitrary function: without AllVersions it is THE
+    listing that is strictly monotone in the user key and contains exactly the
+    visible items ([scan_rel], Spec/IterSpec.v), for any pending writes; the
+    oracle therefore decides that relation. *)
+Theorem C06_spec_is_the_relation : forall now ws pw readTs so l,
+  so_all so = false -> (scan_ok_b now ws pw readTs so l = true <-> scan_rel now ws pw readTs so l).
+Proof. exact scan_ok_b_rel. Qed.
+Print Assumptions C06_spec_is_the_relation.
 
 (** Refuted on the code as found (repaired since):
     F8 — a committed delete of b leaves b in the forward scan;
